@@ -56,6 +56,23 @@ RProds ==
          Pr("complit_arr", <<T("("), T("int"), T("["), T("]"), T(")"), T("{"), N("R"), T(","), N("R"), T("}"), T("["), T("1"), T("]")>>),
          Pr("ptrdiff", <<T("("), T("int"), T(")"), T("("), N("P"), T("-"), N("P"), T(")")>>),
          Pr("ptrcmp", <<N("P"), T("=="), N("P")>>) }
+  \* operator combinations written WITHOUT parentheses: this is where a regrouping on the way through the AST
+  \* changes what the compiler understands (precedence, associativity, binding of unary operators and casts)
+  \cup { Pr("flat:condchain", <<N("Rp"), T("?"), N("Rp"), T(":"), N("Rp"), T("?"), N("Rp"), T(":"), N("Rp")>>),
+         Pr("flat:condmid", <<N("Rp"), T("?"), N("Rp"), T("?"), N("Rp"), T(":"), N("Rp"), T(":"), N("Rp")>>),
+         Pr("flat:asgchain", <<T("x"), T("="), T("y"), T("+="), N("Rp")>>),
+         Pr("flat:asgcond", <<T("x"), T("="), N("Rp"), T("?"), N("Rp"), T(":"), N("Rp")>>),
+         Pr("flat:negmul", <<T("-"), N("Rp"), T("*"), N("Rp")>>),
+         Pr("flat:castadd", <<T("("), T("char"), T(")"), N("Rp"), T("+"), N("Rp")>>),
+         Pr("flat:noteq", <<T("!"), N("Rp"), T("=="), N("Rp")>>),
+         Pr("flat:derefinc", <<T("*"), T("gp"), T("++")>>), Pr("flat:incderef", <<T("++"), T("*"), T("gp")>>),
+         Pr("flat:negneg", <<T("-"), T("-"), N("Rp")>>), Pr("flat:minusneg", <<N("Rp"), T("-"), T("-"), N("Rp")>>),
+         Pr("flat:sizeofadd", <<T("("), T("int"), T(")"), T("sizeof"), T("x"), T("+"), N("Rp")>>),
+         Pr("flat:comma3", <<T("("), N("Rp"), T(","), N("Rp"), T(","), N("Rp"), T(")")>>),
+         Pr("flat:memberpost", <<T("ps"), T("->"), T("a"), T("++")>>), Pr("flat:addrmember", <<T("*"), T("&"), T("gs"), T("."), T("a")>>) }
+  \cup { Pr("flat3:" \o a \o b, <<N("Rp"), T(a), N("Rp"), T(b), N("Rp")>>) :
+           a \in {"-", "/", "+", "*", "<<", "&", "|", "^", "<", "==", "&&", "||", "%", ">>"},
+           b \in {"-", "/", "+", "*", "<<", "&", "|", "^", "<", "==", "&&", "||", "%", ">>"} }
 \* a parenthesised rvalue or a leaf: an operand that needs no further parentheses
 RpProds == { Pr("paren", <<T("("), N("R"), T(")")>>) }
 LProds == { Pr("Lx", <<T("x")>>), Pr("Ly", <<T("y")>>), Pr("Lvol", <<T("vol")>>),
